@@ -330,6 +330,37 @@ def rule_qg(repo, col):
                "a node is buffered, is unaffected" % (bad[0] if bad else ""), construct="EvalDefine.new_result: unbuffered answer not forwarded", function="EvalDefine.new_result")
 
 
+def rule_qh(repo, col):
+    """unbuffered nodes merge every further proof of an answer they have already forwarded: in EvalOr.new_result and EvalDefine.new_result the path on which the answer is already
+    in self.results calls target.add_disjunct(<stored node>, node) unconditionally (NODE_TRUE is 0: a truth test on the proof node would drop the certain proofs)"""
+    n = 0
+    for cname in ("EvalOr", "EvalDefine"):
+        f = repo.func("problog.eval_nodes", "%s.new_result" % cname)
+        m = f.module
+        bad = []
+        hit = 0
+        for p_ in dtable.extract(f.node, opaque_loops=True):
+            cd = [(s_, t_) for s_, t_, _ in p_.conds]
+            if ("self.is_buffered()", True) in cd and ("self.is_buffered()", False) in cd:
+                continue
+            known = any((s_.endswith(" in self.results") and t_) or (s_.endswith(") is not None") and "self.results.get(" in s_ and t_) or (s_.endswith(") is None") and "self.results.get(" in s_ and not t_) for s_, t_ in cd)
+            if not known:
+                continue
+            hit += 1
+            if not any(fn == "self.target.add_disjunct" for fn, _, _ in p_.calls):
+                extra = [s_ for s_, t_ in cd if s_ in ("node", "not node") or s_.startswith("node ")]
+                bad.append(extra[0] if extra else "some condition")
+        if hit == 0:
+            raise AnalysisError("%s.new_result: path for an answer that is already known not found" % cname)
+        n += 1
+        col.decide("QH", m, f.node, not bad, "%s.new_result adds every further proof of a known answer to its node" % cname,
+                   "%s.new_result has a path on which the answer is already known but the new proof node is not merged with add_disjunct (it depends on `%s`): a later proof of an answer "
+                   "that was already forwarded is lost - with a truth test on the node the CERTAIN proof (NODE_TRUE = 0) is the one that is dropped, so (p(X) ; r(X)) with 0.3::p(1) and "
+                   "the fact r(1) gives 0.3 in the unbuffered engine" % (cname, bad[0] if bad else ""), construct="%s.new_result: further proof of a known answer dropped" % cname,
+                   function="%s.new_result" % cname)
+    col.floor("QH.nodes", n, 2)
+
+
 def run(repo, col):
     col.rule("QA", "every concrete message queue implements the whole protocol")
     col.rule("QB", "container conservation: stored == removed == counted / tested / iterated")
@@ -341,3 +372,5 @@ def run(repo, col):
     rule_qe(repo, col, concrete)
     col.rule("QG", "unbuffered define nodes forward every answer")
     rule_qg(repo, col)
+    col.rule("QH", "further proofs of a forwarded answer are merged")
+    rule_qh(repo, col)
